@@ -1007,6 +1007,50 @@ def gen_adjacency(src, tree, out, parts):
     out.append("Definition v2f_entry %s %s : Z * Z * NUM_ := %s." % (binders([iT, vv], "Z"), binders([an], "NUM_"), trip(ent)))
 
 
+ANCHORED = {
+    LAP: ["graph_laplacian", "laplacian", "cotan_edge_diagonal", "laplacian_triangles", "laplacian_edges", "volume_laplacian",
+          "laplacian_tetrahedra"],
+    GRAD: ["gradient"],
+    MASS: ["area_weight_matrix", "area_weight_matrix_faces", "area_weight_matrix_edges", "volume_weight_matrix",
+           "volume_weight_matrix_cells"],
+    ADJ: ["adjacency_matrix", "vertex_to_edge_operator", "vertex_to_face_operator"],
+}
+
+
+def gen_signatures(out):
+    """decorators and defaults of every anchored operator: only the mesh-type guards may decorate them (a memoising
+    decorator would hand out shared matrices), every default is None or an immutable constant; boolean / string defaults
+    are emitted so that a theorem pins them"""
+    out.append("(* ---- signatures: defaults of the optional parameters *)")
+    for rel, names in ANCHORED.items():
+        src, tree = T.load(rel)
+        for name in names:
+            fn = T.find_def(tree, name, rel)
+            for d in fn.decorator_list:
+                if not (isinstance(d, ast.Call) and T.dotted(d.func) in ("allowed_mesh_types", "forbidden_mesh_types")
+                        and all(isinstance(a, ast.Name) for a in d.args) and not d.keywords):
+                    T.fail(rel, d, "unknown decorator on " + name)
+            if len(fn.decorator_list) != 1:
+                T.fail(rel, fn, "%s is expected to carry exactly its mesh-type guard" % name)
+            if fn.args.vararg or fn.args.kwarg or fn.args.kwonlyargs or fn.args.posonlyargs:
+                T.fail(rel, fn, "unexpected parameter kinds in " + name)
+            args = [a.arg for a in fn.args.args]
+            defs = fn.args.defaults
+            for a, dv in zip(args[len(args) - len(defs):], defs):
+                if not (isinstance(dv, ast.Constant) and (dv.value is None or isinstance(dv.value, (bool, int, str)))):
+                    T.fail(rel, dv, "default of %s.%s is not None or an immutable constant" % (name, a))
+                v = dv.value
+                if isinstance(v, bool):
+                    out.append("Definition dflt_%s_%s : bool := %s." % (name, a, "true" if v else "false"))
+                elif isinstance(v, str):
+                    out.append('Definition dflt_%s_%s : string := "%s"%%string.' % (name, a, v.replace('"', '""')))
+                elif isinstance(v, int):
+                    out.append("Definition dflt_%s_%s : Z := %d." % (name, a, v))
+                else:
+                    out.append("Definition dflt_%s_%s : option Z := None." % (name, a))
+            out.append("Definition params_%s : list string := [%s]." % (name, "; ".join('"%s"%%string' % a for a in args)))
+
+
 def gen():
     out, parts = [], []
     src, tree = T.load(LAP)
@@ -1023,8 +1067,9 @@ def gen():
     gen_mass(src, tree, out, parts)
     src, tree = T.load(ADJ)
     gen_adjacency(src, tree, out, parts)
+    gen_signatures(out)
     text = T.header("C08: coefficient patterns, weights, index formulas and shapes of the operator assembly loops", parts)
-    text += """From Coq Require Import ZArith List Bool.
+    text += """From Coq Require Import ZArith List Bool String.
 Import ListNotations.
 Require Import MV.C08.Ops.
 Open Scope Z_scope.
